@@ -56,6 +56,16 @@ pub proof fn lemma_lq_shape(line: Seq<char>, n: int)
 {
     if n > 0 { lemma_lq_shape(line, n - 1); }
 }
+pub open spec fn pl_special(c: char) -> bool {
+    c == '>' || c == '<' || c == '&' || c == '*' || c == '~' || c == '{' || c == '`' || c == '$'
+}
+pub open spec fn is_bs(s: Seq<char>) -> bool { s.len() == 1 && s[0] == '\\' }
+pub proof fn lemma_quote_lits2()
+    ensures "\""@ == seq!['"'], "\\"@ == seq!['\\'],
+{
+    reveal_strlit("\""); reveal_strlit("\\");
+    assert("\""@ =~= seq!['"']); assert("\\"@ =~= seq!['\\']);
+}
 pub proof fn lemma_quote_lits()
     ensures "'"@ == seq!['\''], "&"@ == seq!['&'], "|"@ == seq!['|'], ""@ == Seq::<char>::empty(),
 {
@@ -78,7 +88,26 @@ parse_line = Fn(P, 'parse_line', ret='r',
                      regex=True, rule='R10', why='arithmetic lines: str::split iteration replaced by an opaque token list')],
     let_types={'result': 'Tokens'},
     clone_shims={'result[result.len() - 1]': 'vx_clone_token'},
-    loops={0: Loop(invariant=[('C05.inv.count', 'count_chars == line@.len()')])},
+    loops={0: Loop(invariant=[
+        ('C05.inv.count', 'count_chars == line@.len()'),
+        # leading spaces are skipped only while no word is being collected: an argument in progress is never glued to the next one.
+        # ghost `adj` records that a closing quote was directly followed by another quote (concatenated quoting such as "a"'b',
+        # which is not one of C01's argument forms); the tokenizer's state is specified only up to that point.
+        ('C01.inv.pl.spaces_skipped_only_between_words',
+         '!adj && new_round ==> token@.len() == 0 && sep_second@.len() == 0 && (sep@.len() == 0 || is_bs(sep@)) && sep_made@.len() == 0'),
+        ('C01.inv.pl.backslash_word_has_no_inner_quote', '!adj && is_bs(sep@) ==> sep_second@.len() == 0'),
+        # a pending literal tag belongs to the unquoted word being collected: a push that ignores it leaves it dangling
+        ('C01.inv.pl.literal_tag_belongs_to_the_word_in_progress', '!adj && sep_made@.len() > 0 ==> sep@.len() == 0 && token@.len() > 0'),
+        # the step that consumes a backslash-escaped operator / expansion character outside quotes tags the word
+        ('C01.inv.pl.escaped_special_marks_the_word_literal', 'g_esc ==> sep_made@.len() > 0 || sep@.len() > 0'),
+    ])},
+    hints={'fn-entry': 'RAW: let ghost mut adj = false; let ghost mut g_esc = false;',
+           # concatenated quoting ("a"'b', a"b") is not one of C01's argument forms: the state is specified up to that point
+           'after-text:&& semi_ok {': 'adj = true;',
+           'after-text:if !is_an_env && (c == \'\\\'\' || c == \'"\') {': 'if token@.len() > 0 || sep_made@.len() > 0 { adj = true; }',
+           'loop-0-body-entry': 'lemma_quote_lits(); lemma_quote_lits2(); '
+               'g_esc = has_backslash && sep@.len() == 0 && !met_parenthesis && !skip_next && (pl_special(__V@[__I as int]) '
+               '|| (__V@[__I as int] == \'|\' && new_round && token@.len() == 0));'},
 )
 
 line_to_cmds = Fn(P, 'line_to_cmds', ret='r', strvars=('sep',),
